@@ -6,7 +6,8 @@ from ..lib import LG_BOTH, LG_DEFAULT
 from .c06 import OPS_WEIGHTED, op_records, seed_trees, run_program
 
 OPS_C07 = OPS_WEIGHTED + ["parse"] * 3 + ["print"] * 4 + ["compare"] * 2 + ["minify"] + ["dup"] * 3 + ["delete"] * 2 + \
-    ["add_ref"] * 3 + ["create_containerref"] * 2 + ["create_stringref"] + ["replace_key"] * 3 + ["add_object"] * 3
+    ["add_ref"] * 3 + ["create_containerref"] * 2 + ["create_stringref"] + ["replace_key"] * 3 + ["add_object"] * 3 + \
+    ["utils"] * 4 + ["sort", "util_sorting"]
 
 
 class C07(Prop):
